@@ -12,11 +12,11 @@ VARIABLE l
 Bad(what) == PrintT(<<"BAD", l, what>>)
 
 ParseOk(e) == FoldCalls(DefaultParse, e.calls, TRUE) = e.got
-PrintOk(e) == LET po == FoldCalls(DefaultPrint, e.calls, FALSE) IN \A i \in DOMAIN e.probes : e.texts[i] = Print(e.probes[i], po)
+PrintOk(e) == LET po == FoldCalls(DefaultPrint, e.calls, FALSE) IN \A i \in DOMAIN e.probes : e.texts[i] = PrintDatum(e.probes[i], po)
 FirstWrong(e) ==
   LET po == FoldCalls(DefaultPrint, e.calls, FALSE)
-      i == CHOOSE k \in DOMAIN e.probes : e.texts[k] # Print(e.probes[k], po)
-  IN <<"a probe value is not printed as documented under the built options", i, e.texts[i], Print(e.probes[i], po)>>
+      i == CHOOSE k \in DOMAIN e.probes : e.texts[k] # PrintDatum(e.probes[k], po)
+  IN <<"a probe value is not printed as documented under the built options", i, e.texts[i], PrintDatum(e.probes[i], po)>>
 
 Init == l = 1
 Next ==
